@@ -6,7 +6,7 @@
 
 use crate::common::*;
 use crate::lz;
-use simcore::case::{benign_policy, Case, InputSpec, IoPolicy, Violation};
+use simcore::case::{benign_policy, Case, InputSpec, IoFault, IoPolicy, Violation};
 use simcore::io::{read_all, ReadEnd, SimSource};
 use simcore::rng::Rng;
 use simcore::run::{classify_panic, guarded, Ctx, RunResult};
@@ -134,6 +134,27 @@ pub fn gen(prop: &str, scen: &str, _k: u64, seed: u64, tier: &str) -> Case {
     case.set("convert_pct", *r_in.pick(&[0i64, 30, 70, 100]));
     case.set("enc_seed", (r_in.next_u64() >> 1) as i64);
     case.rbufs = simcore::case::random_rbufs(&mut r_ops);
+    if scen == "bcj2.io" {
+        // C05: 0 = benign short/Interrupted reads, 1 = persistent error at a call of one of the
+        // four sources, 2 = one of the four streams ends early
+        case.set("mode", *r_f.pick(&[0i64, 0, 0, 1, 2]));
+        case.set("fs", r_f.below(4) as i64);
+        case.set("errkind", r_f.range(1, 5) as i64);
+        case.set("pick_seed", (r_f.next_u64() >> 1) as i64);
+        case.set("only", -1);
+        if case.input.len > 40_000 {
+            case.input.len = 40_000 + case.input.len % 9000;
+        }
+    }
+    if scen == "bcj2.history" {
+        // C07: the same four streams under several destination-size histories
+        case.set("h_seed", (r_ops.next_u64() >> 1) as i64);
+        case.set("histories", if big { 12 } else { 6 });
+        case.set("only", -1);
+        if case.input.len > 30_000 {
+            case.input.len = 30_000 + case.input.len % 5000;
+        }
+    }
     // four independent short-read schedules
     for i in 0..4 {
         let p = if r_f.pct(60) { benign_policy(&mut r_f) } else { IoPolicy::default() };
@@ -184,8 +205,209 @@ pub fn exec(case: &Case, keep_log: bool) -> RunResult {
     for s in &streams {
         ctx.bytes("stream", s);
     }
-    let v = run_reader(case, &data, streams, &mut ctx);
+    let v = match case.scen.as_str() {
+        "bcj2.io" => io_scen(case, &data, &streams, &mut ctx),
+        "bcj2.history" => history_scen(case, &data, &streams, &mut ctx),
+        _ => run_reader(case, &data, streams, &mut ctx),
+    };
     ctx.finish(v)
+}
+
+struct Run4 {
+    out: Vec<u8>,
+    end: Result<ReadEnd, (String, String)>,
+    stats: Vec<simcore::io::IoStats>,
+}
+
+/// One read of the four streams to the end: per-stream policies and explicit faults.
+fn decode4(streams: &[Vec<u8>; 4], pols: &[IoPolicy; 4], faults: &[Vec<IoFault>; 4], sizes: &[usize], total: usize) -> Run4 {
+    let mut stats = Vec::new();
+    let mut inputs = Vec::new();
+    for i in 0..4 {
+        let src = SimSource::new(streams[i].clone(), &pols[i], &faults[i]);
+        stats.push(src.stats());
+        inputs.push(src);
+    }
+    let mut out = Vec::new();
+    let end = guarded(|| {
+        let mut rd = lz::filter::bcj2::BCJ2Reader::new(inputs, total as u64);
+        read_all(&mut rd, sizes, total + (1 << 20), &mut out)
+    });
+    let stats = stats.iter().map(|s| s.lock().unwrap().clone()).collect();
+    Run4 { out, end, stats }
+}
+
+const STREAM_NAMES: [&str; 4] = ["main", "call", "jump", "rc"];
+
+fn points(calls: usize, max: usize, seed: u64) -> Vec<usize> {
+    if calls <= max {
+        return (0..calls).collect();
+    }
+    let mut rng = Rng::new(seed);
+    let mut v: Vec<usize> = (0..max / 3).collect();
+    v.extend((calls - max / 3)..calls);
+    while v.len() < max {
+        v.push(rng.urange(0, calls - 1));
+    }
+    v.sort_unstable();
+    v.dedup();
+    v
+}
+
+/// C05 on the four-source reader: benign short / Interrupted reads change nothing; a persistent
+/// error from a call the reader makes is returned with its kind; a stream that ends early never
+/// gives a clean end with bytes missing or wrong.
+fn io_scen(case: &Case, data: &[u8], streams: &[Vec<u8>; 4], ctx: &mut Ctx) -> Option<Violation> {
+    let comp = "BCJ2Reader";
+    let sizes = case.read_sizes();
+    let total = data.len();
+    let pols = [policy(case, 0), policy(case, 1), policy(case, 2), policy(case, 3)];
+    let none: [Vec<IoFault>; 4] = Default::default();
+    let plain: [IoPolicy; 4] = Default::default();
+    // the fault-free read must be right, otherwise C11 reports it
+    let clean = decode4(streams, &plain, &none, &[65536], total);
+    if !matches!(clean.end, Ok(ReadEnd::Eof)) || clean.out != data {
+        ctx.metric("skipped_roundtrip_broken", 1);
+        return None;
+    }
+    let dry = decode4(streams, &pols, &none, &sizes, total);
+    for (i, s) in dry.stats.iter().enumerate() {
+        ctx.absorb(STREAM_NAMES[i], s);
+    }
+    ctx.bytes("out", &dry.out);
+    let benign = match &dry.end {
+        Err((loc, msg)) => Some(classify_panic(comp, loc, msg)),
+        Ok(ReadEnd::Eof) if dry.out == data => None,
+        Ok(ReadEnd::Eof) => Some(Violation::new("benign-fault-changes-bytes", comp, "bcj2", format!("short / interrupted reads on the four sources: decoded {} bytes, expected {}, first difference at {}", dry.out.len(), total, first_diff(&dry.out, data)))),
+        Ok(ReadEnd::Err(e)) => Some(Violation::new("benign-fault-error", comp, format!("bcj2:{:?}", e.kind()), format!("short / interrupted reads on the four sources made the reader fail after {} of {} bytes: {e}", dry.out.len(), total))),
+        Ok(ReadEnd::Overflow) => Some(Violation::new("unbounded-output", comp, "output-cap", "more output than declared")),
+        Ok(ReadEnd::Spin) => Some(Violation::new("hang", comp, "sticky-interrupted", "reader keeps answering Interrupted")),
+    };
+    if benign.is_some() {
+        return benign;
+    }
+    let mode = case.knob("mode");
+    ctx.nontrivial = total > 0 && (mode != 0 || dry.stats.iter().any(|s| s.fired.values().sum::<u64>() > 0));
+    if mode == 0 {
+        return None;
+    }
+    // the stream that gets the fault: the drawn one if the reader uses it at all
+    let mut fs = case.knob("fs") as usize % 4;
+    if dry.stats[fs].bytes == 0 {
+        fs = 0;
+    }
+    let only = case.knob_or("only", -1);
+    let kind_code = case.knob("errkind") as u64;
+    let kind = simcore::io::errkind(kind_code);
+    let mut distinct = std::collections::HashSet::new();
+    if mode == 1 {
+        let calls = dry.stats[fs].calls as usize;
+        let pts = if only >= 0 { vec![only as usize] } else { points(calls, 24, case.knob("pick_seed") as u64) };
+        for j in pts {
+            ctx.evals += 1;
+            let mut faults: [Vec<IoFault>; 4] = Default::default();
+            faults[fs].push(IoFault { at: j as u64, kind: "err_p".into(), arg: kind_code });
+            let r = decode4(streams, &pols, &faults, &sizes, total);
+            ctx.steps += r.stats.iter().map(|s| s.calls).sum::<u64>();
+            let fired = r.stats[fs].fired.contains_key("read_error_persistent");
+            ctx.fire("read_error_persistent", fired as u64);
+            let tag = match &r.end { Ok(ReadEnd::Eof) => 1, Ok(ReadEnd::Err(_)) => 2, Ok(_) => 3, Err(_) => 4 };
+            distinct.insert(simcore::rng::mix(j as u64, simcore::rng::mix(tag, r.out.len() as u64)));
+            let v = match &r.end {
+                Err((loc, msg)) => Some(classify_panic(comp, loc, msg)),
+                _ if !is_prefix(&r.out, data) => Some(Violation::new("wrong-bytes", comp, "read-error", format!("error at call {j} of the {} source: byte {} differs from the original", STREAM_NAMES[fs], first_diff(&r.out, data)))),
+                _ if !fired => None,
+                Ok(ReadEnd::Err(e)) if e.kind() != kind => Some(Violation::new("error-kind-lost", comp, "bcj2", format!("the {} source failed with {kind:?} at call {j}, reader reported {:?} ({e})", STREAM_NAMES[fs], e.kind()))),
+                Ok(ReadEnd::Err(_)) => None,
+                Ok(ReadEnd::Eof) => Some(Violation::new("error-swallowed", comp, "bcj2", format!("the {} source failed with {kind:?} at call {j} of {calls}, reader reported a clean end of stream after {} of {} bytes", STREAM_NAMES[fs], r.out.len(), total))),
+                Ok(ReadEnd::Overflow) => Some(Violation::new("unbounded-output", comp, "output-cap", "more output than declared")),
+                Ok(ReadEnd::Spin) => Some(Violation::new("hang", comp, "sticky-interrupted", "reader keeps answering Interrupted")),
+            };
+            if let Some(v) = v {
+                ctx.pin.insert("only".into(), j as i64);
+                return Some(v);
+            }
+        }
+    } else {
+        // every cut inside the bytes the reader pulled from that stream in the fault-free run
+        let used = (dry.stats[fs].bytes as usize).min(streams[fs].len());
+        let pts = if only >= 0 { vec![only as usize] } else { points(used, 48, case.knob("pick_seed") as u64) };
+        for t in pts {
+            ctx.evals += 1;
+            let mut cut = streams.clone();
+            cut[fs].truncate(t);
+            let r = decode4(&cut, &pols, &none, &sizes, total);
+            ctx.steps += r.stats.iter().map(|s| s.calls).sum::<u64>();
+            ctx.fire("stream_truncated", 1);
+            let tag = match &r.end { Ok(ReadEnd::Eof) => 1, Ok(ReadEnd::Err(_)) => 2, Ok(_) => 3, Err(_) => 4 };
+            distinct.insert(simcore::rng::mix(t as u64, simcore::rng::mix(tag, r.out.len() as u64)));
+            let v = match &r.end {
+                Err((loc, msg)) => Some(classify_panic(comp, loc, msg)),
+                _ if !is_prefix(&r.out, data) => Some(Violation::new("wrong-bytes", comp, "truncation", format!("{} source cut at {t} of {}: byte {} differs from the original", STREAM_NAMES[fs], streams[fs].len(), first_diff(&r.out, data)))),
+                // a cut behind the last byte the decoder needs is no truncation of the stream
+                Ok(ReadEnd::Eof) if r.out.len() < total => Some(Violation::new("truncation-accepted", comp, "bcj2", format!("{} source cut at {t} of {}: clean end of stream after {} of {} bytes", STREAM_NAMES[fs], streams[fs].len(), r.out.len(), total))),
+                Ok(ReadEnd::Overflow) => Some(Violation::new("unbounded-output", comp, "output-cap", "more output than declared")),
+                Ok(ReadEnd::Spin) => Some(Violation::new("hang", comp, "sticky-interrupted", "reader keeps answering Interrupted")),
+                _ => None,
+            };
+            if let Some(v) = v {
+                ctx.pin.insert("only".into(), t as i64);
+                return Some(v);
+            }
+        }
+    }
+    ctx.distinct_sub = distinct.len() as u64;
+    None
+}
+
+/// C07 on the four-source reader: the bytes are the same for every sequence of destination
+/// sizes, zero-length reads included.
+fn history_scen(case: &Case, data: &[u8], streams: &[Vec<u8>; 4], ctx: &mut Ctx) -> Option<Violation> {
+    let comp = "BCJ2Reader";
+    let total = data.len();
+    let none: [Vec<IoFault>; 4] = Default::default();
+    let plain: [IoPolicy; 4] = Default::default();
+    let one = decode4(streams, &plain, &none, &[total.max(1) + 7], total);
+    if !matches!(one.end, Ok(ReadEnd::Eof)) || one.out != data {
+        // the one-shot read is wrong: C11 reports that
+        ctx.metric("skipped_roundtrip_broken", 1);
+        return None;
+    }
+    let mut rng = Rng::new(case.knob("h_seed") as u64);
+    let n = case.knob_or("histories", 6) as usize;
+    let only = case.knob_or("only", -1);
+    for i in 0..n {
+        let rb: Vec<usize> = match i {
+            0 => vec![1],
+            1 => vec![0, 1, 0, 7],
+            2 => vec![3, 0, 4097, 0, 0, 2],
+            3 => vec![5, 4, 6],
+            _ => {
+                let k = rng.urange(1, 8);
+                (0..k).map(|_| *rng.pick(&[0usize, 0, 1, 2, 3, 4, 5, 6, 7, 13, 100, 4095, 4096, 4097, 65536, 1 << 20])).collect()
+            }
+        };
+        if rb.iter().all(|&x| x == 0) || (only >= 0 && only != i as i64) {
+            continue;
+        }
+        ctx.evals += 1;
+        let r = decode4(streams, &plain, &none, &rb, total);
+        ctx.steps += r.stats.iter().map(|s| s.calls).sum::<u64>();
+        let v = match &r.end {
+            Err((loc, msg)) => Some(classify_panic(comp, loc, msg)),
+            Ok(ReadEnd::Eof) if r.out == data => None,
+            Ok(ReadEnd::Eof) => Some(Violation::new("read-history-changes-bytes", comp, "bytes", format!("buffer sizes {rb:?}: {} bytes, expected {}, first difference at {}", r.out.len(), total, first_diff(&r.out, data)))),
+            Ok(ReadEnd::Err(e)) => Some(Violation::new("read-history-error", comp, format!("{:?}:{e}", e.kind()), format!("buffer sizes {rb:?}: reader fails after {} of {} bytes: {e}", r.out.len(), total))),
+            Ok(ReadEnd::Overflow) => Some(Violation::new("unbounded-output", comp, "output-cap", "more output than declared")),
+            Ok(ReadEnd::Spin) => Some(Violation::new("hang", comp, "sticky-interrupted", "reader keeps answering Interrupted")),
+        };
+        if let Some(v) = v {
+            ctx.pin.insert("only".into(), i as i64);
+            return Some(v);
+        }
+    }
+    ctx.distinct_sub = ctx.evals;
+    None
 }
 
 fn run_reader(case: &Case, data: &[u8], streams: [Vec<u8>; 4], ctx: &mut Ctx) -> Option<Violation> {
